@@ -250,6 +250,8 @@ def features(proto):
                 A.add('len:' + e.ntype)
                 tgt = next(x for x in f._container if x.name == f.target)
                 A.add('len-target:' + tgt.kind)
+                if tgt.repeat or tgt.kind not in ('ref', 'inline', 'match'):
+                    A.add('len-target-not-an-object')      # a string, a number, a list: see W-lengthof-non-object-target
                 A.add('len-spell:' + ('prefixed' if f.prefixed else 'inline'))
                 if not f.typed:
                     A.add('len-meta')
